@@ -50,6 +50,60 @@ fn check_stream(mut s: ByteStream, model: &[u8], cx: &mut Ctx, how: &str) {
             5 => remaining,
             _ => cx.rng.range(1, 200) as usize,
         };
+        // now and then use the other entry points of `Read` from the current cursor position
+        match cx.rng.below(12) {
+            0 => {
+                cx.ops += 1;
+                let mut rest = Vec::new();
+                match s.read_to_end(&mut rest) {
+                    Ok(n) => {
+                        if n != remaining || rest[..] != model[pos..] {
+                            cx.bad.push(format!(
+                                "{} {how}: read_to_end after reading {pos} bytes returned {n} bytes that are not content[{pos}..]",
+                                cx.what
+                            ));
+                        } else if s.offset() != len || s.size_left() != 0 {
+                            cx.bad.push(format!("{} {how}: after read_to_end offset()={} size_left()={}", cx.what, s.offset(), s.size_left()));
+                        }
+                    }
+                    Err(e) => cx.bad.push(format!("{} {how}: read_to_end error {:?} at {pos}", cx.what, e.kind())),
+                }
+                return;
+            }
+            1 if remaining > 0 => {
+                cx.ops += 1;
+                let k = cx.rng.range(1, remaining as u64) as usize;
+                let mut b = vec![0u8; k];
+                match s.read_exact(&mut b) {
+                    Ok(()) => {
+                        if b[..] != model[pos..pos + k] {
+                            cx.bad.push(format!("{} {how}: read_exact({k}) at {pos} differs from the content", cx.what));
+                            return;
+                        }
+                        pos += k;
+                        if s.offset() != pos as u64 || s.size_left() != (model.len() - pos) as u64 {
+                            cx.bad.push(format!("{} {how}: after read_exact offset()={} size_left()={} (expected {pos})", cx.what, s.offset(), s.size_left()));
+                            return;
+                        }
+                        continue;
+                    }
+                    Err(e) => {
+                        cx.bad.push(format!("{} {how}: read_exact({k}) with {remaining} bytes left failed: {:?}", cx.what, e.kind()));
+                        return;
+                    }
+                }
+            }
+            2 => {
+                cx.ops += 1;
+                // asking for more than is left must fail, never deliver foreign bytes
+                let mut b = vec![0u8; remaining + 1 + cx.rng.below(9) as usize];
+                if s.read_exact(&mut b).is_ok() {
+                    cx.bad.push(format!("{} {how}: read_exact({}) succeeded with only {remaining} bytes left", cx.what, b.len()));
+                }
+                return;
+            }
+            _ => {}
+        }
         let mut buf = vec![0xA5u8; k];
         cx.ops += 1;
         match s.read(&mut buf) {
